@@ -10,16 +10,16 @@ META = {
     'bounds': {
         'quick': 'whole expand(): all ASCII strings len<=2 under 3 markup configurations (default, jsx, wrap text list); stylesheet '
                  'tokenizer+parser: all ASCII strings len<=2 in both modes; whole expand() on all sequences '
-                 'of <=3 pieces from a 37-piece markup alphabet / 26-piece stylesheet alphabet under the default configurations and '
+                 'of <=3 pieces from a 39-piece markup alphabet / 26-piece stylesheet alphabet under the default configurations and '
                  'of <=2 pieces under 15 more configurations (jsx, wrap text, BEM+comments, context, xml, pug, haml, slim, xsl, stylus, '
                  'json, value/section context)',
         'thorough': 'len<=2 under all 11 markup configurations, len 3 for default markup; stylesheet parser len<=3; <=3 pieces under all 17 configurations',
     },
     'outside_claim': ['whole-expand of stylesheet abbreviations with symbolic characters (the fuzzy matcher computes a float score per '
                       'snippet key: the solver does not return; measured). Stylesheet expand() is covered on concrete piece sequences',
-                      'strings longer than the bound outside the piece language', 'lorem-ipsum text (random; names of >=5 letters)',
+                      'strings longer than the bound outside the piece language', 'the random text produced by lorem (stubbed)',
                       'mutation of long valid abbreviations', 'code points >= 128'],
-    'stubs': ['C07-b: tokenization of the (per path concrete) abbreviation runs outside the tracer - same real function, identical tokens',
+    'stubs': ['random.randint as used by markup/lorem returns its lower bound (lorem text is random by design)', 'C07-b: tokenization of the (per path concrete) abbreviation runs outside the tracer - same real function, identical tokens',
               'Config objects are built outside the tracer; stylesheet snippet table converted once per path outside the tracer and '
               'passed through the documented cache option'],
 }
@@ -45,7 +45,7 @@ CONFIGS = {
 }
 
 M_PIECES = ['a', 'Ab', '$', '$$@-', '$@^^', '$@3', '$#', '*', '*3', '>', '+', '^', '(', ')', '[', ']', '{', '}', '.', '#', '/', '=',
-            '"', "'", ' ', '${1}', '${a}', '${2:x}', '\\', '!', ':', '-', '@', '1', '={', '${', '_m']
+            '"', "'", ' ', '${1}', '${a}', '${2:x}', '\\', '!', ':', '-', '@', '1', '={', '${', '_m', 'lorem', 'lorem2']
 C_PIECES = ['p', '10', '-', '#', 'f', '.5', '!', '+', '(', ')', ',', ':', '"', "'", '$', '@', '${1}', 'lg', ' ', '%', '/', '--', 't',
             'e', '${a}', 'x']
 
@@ -116,6 +116,9 @@ def mk_css_parse(L, lo, hi, value_mode):
 
 
 def mk_pieces(K, cfg, first):
+    import importlib
+    lorem_mod = importlib.import_module('emmet.markup.lorem')
+    lorem_mod.randint = lambda a, b: a        # lorem text is random by design; stubbed (the text is not part of any property)
     from vf.pipe import expand_concrete_tokens
     pieces = C_PIECES if cfg.startswith('css') else M_PIECES
     P = len(pieces)
